@@ -123,6 +123,16 @@ def eval_op(op: str) -> str:
         if k == "rfc6979n":
             from pycoin.ecdsa.rfc6979 import deterministic_generate_k
             return "ok %d" % deterministic_generate_k(int(a[1]), int(a[2]), int(a[3]))
+        if k in ("keysign", "keyverify"):
+            # Key.sign / Key.verify of the BTC network's Key class (secp256k1 generator, DER wrapper)
+            from pycoin.symbols.btc import network as BTC
+            from pycoin.satoshi.der import sigencode_der, sigdecode_der
+            if k == "keysign":
+                key = BTC.keys.private(secret_exponent=int(a[2]))
+                r, s = sigdecode_der(key.sign(int(a[3]).to_bytes(32, "big")), use_broken_open_ssl_mechanism=False)
+                return "ok %d %d" % (r, s)
+            key = BTC.keys.public(parse_pt(a[2]))
+            return "ok %d" % (1 if key.verify(int(a[3]).to_bytes(32, "big"), sigencode_der(int(a[4]), int(a[5]))) else 0)
         g = _generator(a[1])
         if k == "ec_add":
             return "ok " + show_pt(_point(g, a[2]) + _point(g, a[3]))
